@@ -507,3 +507,110 @@ pub mod c06_proofs {
     }
     lh!(c06_loose_header_7 = 7, c06_loose_header_8 = 8, c06_loose_header_10 = 10);
 }
+
+/// C01 (decode half, trees): what `TreeRef::write_to` writes decodes back, entry by entry, to equal values.
+#[cfg(kani)]
+pub mod tree_roundtrip {
+    use super::*;
+    use gix_object::TreeRefIter;
+
+    /// modes the decoder accepts: directories and everything with the "regular file" bit (blobs, links, commits)
+    fn decodable_mode(m: u16) -> bool {
+        m == 0o40000 || m & 0o100000 != 0
+    }
+
+    pub fn roundtrip<const K: usize, const L: usize>() {
+        let n0: [u8; L] = kani::any();
+        let n1: [u8; L] = kani::any();
+        let names: [&[u8; L]; 2] = [&n0, &n1];
+        let modes: [u16; 2] = [kani::any(), kani::any()];
+        let id = ObjectId::from(kani::any::<[u8; 20]>());
+        let mut entries = Vec::with_capacity(K);
+        let mut i = 0;
+        while i < K {
+            kani::assume(decodable_mode(modes[i]));
+            let mut j = 0;
+            while j < L {
+                kani::assume(names[i][j] != 0);
+                j += 1;
+            }
+            entries.push(tree::EntryRef { mode: tree::EntryMode(modes[i]), filename: names[i][..].as_bstr(), oid: &id });
+            i += 1;
+        }
+        if K == 2 {
+            kani::assume(entries[0] <= entries[1]);
+        }
+        let t = TreeRef { entries };
+        let mut out = FixedBuf::<80>::new();
+        let res = t.write_to(&mut out);
+        assert!(res.is_ok() && !out.overflow);
+        std::mem::forget(res);
+        let mut it = TreeRefIter::from_bytes(&out.data[..out.len]);
+        i = 0;
+        while i < K {
+            match it.next() {
+                Some(Ok(e)) => {
+                    assert!(e.mode.0 == modes[i], "mode survives the round trip");
+                    assert!(e.filename.len() == L, "name length survives");
+                    let k: usize = kani::any();
+                    kani::assume(k < L);
+                    assert!(e.filename[k] == names[i][k], "name bytes survive");
+                    let q: usize = kani::any();
+                    kani::assume(q < 20);
+                    assert!(e.oid.as_bytes()[q] == id.as_bytes()[q], "id survives");
+                }
+                Some(Err(e)) => {
+                    std::mem::forget(e);
+                    assert!(false, "own tree bytes must decode");
+                }
+                None => assert!(false, "entry missing after decode"),
+            }
+            i += 1;
+        }
+        assert!(it.next().is_none(), "nothing left after the written entries");
+        kani::cover!(modes[0] == 0o40000, "directory entry");
+        kani::cover!(modes[0] == 0o100755, "executable entry");
+        std::mem::forget(t);
+    }
+    macro_rules! rt {
+        ($($name:ident = ($k:literal, $l:literal)),*) => {$(
+            #[kani::proof]
+            #[kani::unwind(24)]
+            #[kani::stub(alloc::fmt::format, crate::util::stub_format)]
+            pub fn $name() { roundtrip::<$k, $l>() }
+        )*};
+    }
+    rt!(c01_tree_roundtrip_k1_l1 = (1, 1), c01_tree_roundtrip_k1_l3 = (1, 3), c01_tree_roundtrip_k2_l1 = (2, 1), c01_tree_roundtrip_k2_l2 = (2, 2));
+
+    /// C06: arbitrary bytes through the tree entry decoder: entries or an error, never a panic.
+    pub fn decode_arbitrary<const N: usize>() {
+        let data: [u8; N] = kani::any();
+        let mut it = TreeRefIter::from_bytes(&data);
+        let mut seen = 0;
+        // at most two entries fit into the inputs used here
+        while seen < 3 {
+            match it.next() {
+                None => break,
+                Some(Ok(e)) => {
+                    assert!(e.filename.len() + 22 <= N);
+                    kani::cover!(true, "an entry decoded");
+                }
+                Some(Err(e)) => {
+                    std::mem::forget(e);
+                    kani::cover!(true, "refused");
+                    break;
+                }
+            }
+            seen += 1;
+        }
+    }
+    macro_rules! da {
+        ($($name:ident = ($n:literal, $u:literal)),*) => {$(
+            #[kani::proof]
+            #[kani::unwind($u)]
+            #[kani::stub(alloc::fmt::format, crate::util::stub_format)]
+            pub fn $name() { decode_arbitrary::<$n>() }
+        )*};
+    }
+    da!(c06_tree_decode_24 = (24, 26), c06_tree_decode_28 = (28, 30));
+}
